@@ -6,6 +6,8 @@ import (
 	"math"
 	"reflect"
 	"strings"
+	"sync"
+	"sync/atomic"
 	"unicode/utf16"
 	"unicode/utf8"
 
@@ -21,20 +23,41 @@ import (
 // saves CPU and memory.
 // Currently, importedString is created in 2 cases: Runtime.ToValue() for strings longer than 16 bytes and as a result
 // of JSON.stringify() if it may contain unicode characters. More cases could be added in the future.
+//
+// The value may be shared between goroutines (and runtimes), so the lazy scan is done once under scanMu and published
+// with scanDone: u and scanned must only be read after isScanned() has returned true or after ensureScanned().
 type importedString struct {
 	s string
 	u unicodeString
 
 	scanned bool
+
+	scanDone atomic.Uint32
+	scanMu   sync.Mutex
+}
+
+func newScannedImportedString(s string, u unicodeString) *importedString {
+	i := &importedString{s: s, u: u, scanned: true}
+	i.scanDone.Store(1)
+	return i
 }
 
 func (i *importedString) scan() {
-	i.u = unistring.Scan(i.s)
-	i.scanned = true
+	i.scanMu.Lock()
+	defer i.scanMu.Unlock()
+	if i.scanDone.Load() == 0 {
+		i.u = unistring.Scan(i.s)
+		i.scanned = true
+		i.scanDone.Store(1)
+	}
+}
+
+func (i *importedString) isScanned() bool {
+	return i.scanDone.Load() != 0
 }
 
 func (i *importedString) ensureScanned() {
-	if !i.scanned {
+	if !i.isScanned() {
 		i.scan()
 	}
 }
@@ -109,7 +132,7 @@ func (i *importedString) Equals(other Value) bool {
 func (i *importedString) StrictEquals(other Value) bool {
 	switch otherStr := other.(type) {
 	case asciiString:
-		if i.u != nil {
+		if i.isScanned() && i.u != nil {
 			return false
 		}
 		return i.s == string(otherStr)
@@ -165,9 +188,9 @@ func (i *importedString) Length() int {
 }
 
 func (i *importedString) Concat(v String) String {
-	if !i.scanned {
+	if !i.isScanned() {
 		if v, ok := v.(*importedString); ok {
-			if !v.scanned {
+			if !v.isScanned() {
 				return &importedString{s: i.s + v.s}
 			}
 		}
@@ -196,7 +219,7 @@ func (i *importedString) CompareTo(v String) int {
 }
 
 func (i *importedString) Reader() io.RuneReader {
-	if i.scanned {
+	if i.isScanned() {
 		if i.u != nil {
 			return i.u.Reader()
 		}
@@ -242,7 +265,7 @@ func (s *stringUtf16Reader) ReadRune() (r rune, size int, err error) {
 }
 
 func (i *importedString) utf16Reader() utf16Reader {
-	if i.scanned {
+	if i.isScanned() {
 		if i.u != nil {
 			return i.u.utf16Reader()
 		}
@@ -254,7 +277,7 @@ func (i *importedString) utf16Reader() utf16Reader {
 }
 
 func (i *importedString) utf16RuneReader() io.RuneReader {
-	if i.scanned {
+	if i.isScanned() {
 		if i.u != nil {
 			return i.u.utf16RuneReader()
 		}
